@@ -154,8 +154,12 @@ static void part_b(Ctx& ctx, uint64_t N, const CpuCfg& cfg, bool thorough) {
             if (rsl == N) { s.alias = 1; run(s); }
           }
         }
-        for (uint64_t end = 0; end <= 5; ++end) for (uint64_t begin = 0; begin <= end; ++begin) for (uint64_t step = 1; step <= 3; ++step)
-          for (uint64_t rsl : {N, N + 1}) {
+        // all (begin,end,step) with begin<=end<=5, step 1..3, plus longer ranges and strides
+        std::vector<std::vector<uint64_t>> RG;
+        for (uint64_t end = 0; end <= 5; ++end) for (uint64_t begin = 0; begin <= end; ++begin) for (uint64_t step = 1; step <= 3; ++step) RG.push_back({begin, end, step});
+        for (uint64_t end : {8, 13, 40}) for (uint64_t begin : {0, 1, 5}) for (uint64_t step : {1, 2, 3, 7}) RG.push_back({begin, end, step});
+        for (auto& rg : RG) for (uint64_t rsl : {N, N + 1}) {
+            const uint64_t begin = rg[0], end = rg[1], step = rg[2];
             NormShape s; s.N = N; s.k = k; s.rs = rs; s.rsl = rsl; s.variant = 2; s.begin = begin; s.end = end; s.step = step; s.dataset = ds;
             run(s);
             if (rsl == N && begin == 0 && step == 1) { s.alias = 1; run(s); }
